@@ -48,6 +48,12 @@ def base_model(rng):
     for t in types:
         if rng.random() < 0.25:
             t["dirs"].append("tsd")
+    # an interface that no object type implements (legal): its fields and arguments must still be checked
+    if rng.random() < 0.7 and not any(t["name"] == "ILone" for t in types):
+        types.append({"name": "ILone", "kind": "INTERFACE", "dirs": [], "fields": [
+            {"name": "lone0", "type": N("String"), "args": [{"name": "a0", "type": NN(N("Int")), "default": None},
+                                                          {"name": "a1", "type": L(N("String")), "default": None}]},
+            {"name": "lone1", "type": L(N("ILone")), "args": []}]})
     covariant_implementations(rng, m)
     split_into_extensions(rng, m)
     if rng.random() < 0.4 and set(schema) == {"query"} and schema["query"] == "Query":
@@ -322,6 +328,18 @@ def mutants(rng, m0, limit=4):
     add("non-input-type", "directive argument of an object type",
         lambda m: m["dirdefs"][0]["args"].append({"name": "zz", "type": N(rng.choice(objs)), "default": None}))
 
+    if any(t["name"] == "ILone" for t in m0["types"]):
+        def lone_arg(m, ty):
+            find_type(m, "ILone")["fields"][0]["args"][0].update(type=ty, default=None)
+        add("undefined-type", "argument of a field of an interface nobody implements -> undefined type",
+            lambda m: lone_arg(m, NN(N("ZZNope"))))
+        add("non-input-type", "argument of a field of an interface nobody implements -> object/interface type",
+            lambda m: lone_arg(m, L(NN(N(rng.choice(objs + ["ILone"]))))))
+        add("non-input-type", "extend interface (nobody implements it) adds a field with an object-typed argument",
+            lambda m: m["exts"].append({"target": "ILone", "kind": "INTERFACE", "dirs": [], "fields": [
+                {"name": "lone2", "type": N("Int"), "args": [{"name": "z", "type": N(rng.choice(objs)), "default": None}]}]}))
+        add("undefined-type", "field of an interface nobody implements -> undefined type",
+            lambda m: find_type(m, "ILone")["fields"][1].update(type=N("ZZNope")))
     # R3 interfaces
     impls = [(t["name"], i) for t in m0["types"] if t["kind"] == "OBJECT" for i in t.get("interfaces", [])]
     rng.shuffle(impls)
